@@ -28,7 +28,23 @@ __all__ = ["Int", "Real", "Bool", "Str", "Any", "Opt", "Tuple", "Val", "Ref", "O
            "sym_or", "fresh", "assume", "oblige", "unchanged", "z3", "seq_term", "to_z3_bool",
            "mk_bool", "mk_num", "new_object", "num", "T", "stub_of", "REG", "valueclass", "Yields", "Fn", "ObjProxy", "SymList", "SymDict", "SymSet",
            "s_union", "s_inter", "s_diff", "s_eq", "s_subset", "s_disjoint", "s_is_empty", "s_has", "s_add",
-           "native", "RealInf", "Bag", "SymHeap", "field_term", "OutOfReach", "Raw", "Not", "last_popped", "popped_any", "SpecError", "IntInf"]
+           "native", "RealInf", "Bag", "SymHeap", "field_term", "OutOfReach", "Raw", "Not", "last_popped", "popped_any", "SpecError", "IntInf", "cast", "has_class"]
+
+
+def cast(obj, klass):
+    """view a symbolic reference as an instance of `klass` (use together with has_class)"""
+    if isinstance(obj, ObjProxy):
+        return ObjProxy(obj._ref, klass, obj._frozen)
+    return obj
+
+
+def has_class(obj, klass):
+    """the dynamic class of the reference is `klass` or a registered subclass (symbolic isinstance)"""
+    from .heap import CLASS_OF, class_id
+    if not isinstance(obj, ObjProxy):
+        return isinstance(obj, klass)
+    ids = sorted({class_id(k2) for k2 in REG.classes if issubclass(k2, klass)} | {class_id(klass)})
+    return mk_bool(z3.Or(*[CLASS_OF(obj._ref) == i for i in ids]))
 
 
 def last_popped(k=-1):
